@@ -248,7 +248,7 @@ func init() {
 	core.Register(&core.Prop{
 		ID:    "C01",
 		Level: "model_checking",
-		Rule: "bounded-exhaustive scenarios: full product of a core grid (1-3 files x 6 sizes x slice{4,8} x blocks{1,2,3,5} x goroutines{1,3}) x every single damage of a reduced menu; " +
+		Rule: "(later rounds added: sets written by a reused Encoder, also with a failed reload before the write; sets with 32770 / 65535 recovery blocks and one surviving recovery file; same-size displacement; names of boundary ASCII codes; protected files named like the set's volumes in sub-directories; the damage operator 'same CRC-32, other bytes'; a prior Verify / Repair of a copy with a bad-hash packet or cut index; checksum-field boundary contents; a staged twin with the recovery data loaded first and a refused Repair repeated; disk twins from another working directory with three spellings of the index path and a symlinked file) bounded-exhaustive scenarios: full product of a core grid (1-3 files x 6 sizes x slice{4,8} x blocks{1,2,3,5} x goroutines{1,3}) x every single damage of a reduced menu; " +
 			"around a default set (sizes 11,6; slice 4; 3 blocks) ALL combinations of <=D operators (quick D=2, thorough D=3) from the full menu (delete, overwrite each slice, bit flips at every byte, " +
 			"insert 1/s-1/s/s+1 bytes at every offset, truncate/cut at every offset, append, swap, copy, delete each recovery file) for 5 content classes; structured large sets; a set above 16 KiB verified / repaired right after ANOTHER GENERATION of itself (same names, lengths, first 16 KiB => same file ids and set id, other content) in the same process, with exactly as many slices lost as blocks exist. " +
 			"Each scenario runs the real Create, Verify and Repair; oracle = brute-force slice scan + reference Vandermonde singularity test. non-trivial = damaged scenario in which Repair wrote >=1 file",
